@@ -13,6 +13,7 @@ overrides).  Used by tools/refactor_fuzz.py (all properties) and by the thorough
   T12 the value of the first call-holding assignment / return extracted into a helper function
   T13 second half of a method body extracted into a new private method of the same class
   T14 operands of is / is not exchanged, `x == literal` written literal-first;  T15 if/else pairs of returns (or of assignments to one name) folded into a conditional expression
+  T16 a list / dict comprehension that is the whole value of an assignment spelled as a loop;  T17 the inverse
 """
 from __future__ import annotations
 
@@ -437,7 +438,95 @@ def t15_ternary(fn):
     return done
 
 
-KINDS = {'T14': t14_swap_compare, 'T15': t15_ternary, 'T13': t13_extract_method, 'T11': t11_extract_tail, 'T12': t12_extract_value, 'T9': t9_swap_assigns, 'T10': t10_else_pass, 'T1': t1_rename, 'T2': t2_invert, 'T3': t3_name_return, 'T4': t4_split_and, 'T6': t6_drop_else, 'T7': t7_add_else,
+def t16_comp_to_loop(fn):
+    """v = [e for x in it if c]  ->  v = []; for x in it: if c: v.append(e)      (dict comprehensions likewise)
+    only when the comprehension is the whole value of a one-name assignment, has one generator, and neither the
+    target name nor the loop variables are used elsewhere in a way the rewrite would change"""
+    done = False
+    for b in _blocks(fn):
+        i = 0
+        while i < len(b):
+            st = b[i]
+            if isinstance(st, ast.Assign) and len(st.targets) == 1 and isinstance(st.targets[0], ast.Name) \
+                    and isinstance(st.value, (ast.ListComp, ast.DictComp)) and len(st.value.generators) == 1 \
+                    and not st.value.generators[0].is_async:
+                comp = st.value
+                g = comp.generators[0]
+                tgt = st.targets[0].id
+                loopvars = {n.id for n in ast.walk(g.target) if isinstance(n, ast.Name)}
+                names_in = {n.id for n in ast.walk(comp) if isinstance(n, ast.Name)}
+                # the loop variables leak in the statement form: they must not exist in the function otherwise
+                others = {n.id for n in ast.walk(fn) if isinstance(n, ast.Name) and not any(n is x for x in ast.walk(comp))}
+                params = set(_local_names(fn))
+                if tgt in names_in or loopvars & (others | params) or any(isinstance(x, (ast.Lambda, ast.ListComp, ast.DictComp, ast.GeneratorExp, ast.SetComp))
+                                                                           for x in ast.walk(comp) if x is not comp):
+                    i += 1
+                    continue
+                if isinstance(comp, ast.ListComp):
+                    init = ast.List(elts=[], ctx=ast.Load())
+                    body = ast.Expr(value=ast.Call(func=ast.Attribute(value=ast.Name(id=tgt, ctx=ast.Load()), attr='append', ctx=ast.Load()),
+                                                   args=[comp.elt], keywords=[]))
+                else:
+                    init = ast.Dict(keys=[], values=[])
+                    body = ast.Assign(targets=[ast.Subscript(value=ast.Name(id=tgt, ctx=ast.Load()), slice=comp.key, ctx=ast.Store())],
+                                      value=comp.value, lineno=st.lineno)
+                inner = [body]
+                for cond in reversed(g.ifs):
+                    inner = [ast.If(test=cond, body=inner, orelse=[])]
+                loop = ast.For(target=g.target, iter=g.iter, body=inner, orelse=[], lineno=st.lineno)
+                for n in ast.walk(g.target):
+                    if isinstance(n, ast.Name):
+                        n.ctx = ast.Store()
+                b[i:i + 1] = [ast.Assign(targets=[ast.Name(id=tgt, ctx=ast.Store())], value=init, lineno=st.lineno), loop]
+                done = True
+                i += 2
+                continue
+            i += 1
+    return done
+
+
+def t17_loop_to_comp(fn):
+    """v = {}; for k, x in it: v[k] = e   ->   v = {k: e for k, x in it}      (lists with append likewise)"""
+    done = False
+    for b in _blocks(fn):
+        i = 0
+        while i + 1 < len(b):
+            a, lp = b[i], b[i + 1]
+            if isinstance(a, ast.Assign) and len(a.targets) == 1 and isinstance(a.targets[0], ast.Name) \
+                    and isinstance(a.value, (ast.Dict, ast.List)) and not (getattr(a.value, 'keys', None) or getattr(a.value, 'elts', None)) \
+                    and isinstance(lp, ast.For) and not lp.orelse and len(lp.body) == 1:
+                v = a.targets[0].id
+                inner = lp.body[0]
+                conds = []
+                while isinstance(inner, ast.If) and not inner.orelse and len(inner.body) == 1:
+                    conds.append(inner.test)
+                    inner = inner.body[0]
+                comp = None
+                uses_v = lambda e: any(isinstance(x, ast.Name) and x.id == v for x in ast.walk(e))
+                loopvars = {n.id for n in ast.walk(lp.target) if isinstance(n, ast.Name)}
+                later = any(isinstance(x, ast.Name) and x.id in loopvars for st in b[i + 2:] for x in ast.walk(st))
+                if later or uses_v(lp.iter) or any(uses_v(c) for c in conds):
+                    i += 1
+                    continue
+                if isinstance(a.value, ast.Dict) and isinstance(inner, ast.Assign) and len(inner.targets) == 1 \
+                        and isinstance(inner.targets[0], ast.Subscript) and isinstance(inner.targets[0].value, ast.Name) \
+                        and inner.targets[0].value.id == v and not uses_v(inner.value) and not uses_v(inner.targets[0].slice):
+                    comp = ast.DictComp(key=inner.targets[0].slice, value=inner.value,
+                                        generators=[ast.comprehension(target=lp.target, iter=lp.iter, ifs=conds, is_async=0)])
+                elif isinstance(a.value, ast.List) and isinstance(inner, ast.Expr) and isinstance(inner.value, ast.Call) \
+                        and isinstance(inner.value.func, ast.Attribute) and inner.value.func.attr == 'append' \
+                        and isinstance(inner.value.func.value, ast.Name) and inner.value.func.value.id == v \
+                        and len(inner.value.args) == 1 and not uses_v(inner.value.args[0]):
+                    comp = ast.ListComp(elt=inner.value.args[0],
+                                        generators=[ast.comprehension(target=lp.target, iter=lp.iter, ifs=conds, is_async=0)])
+                if comp is not None:
+                    b[i:i + 2] = [ast.Assign(targets=[a.targets[0]], value=comp, lineno=a.lineno)]
+                    done = True
+            i += 1
+    return done
+
+
+KINDS = {'T17': t17_loop_to_comp, 'T16': t16_comp_to_loop, 'T14': t14_swap_compare, 'T15': t15_ternary, 'T13': t13_extract_method, 'T11': t11_extract_tail, 'T12': t12_extract_value, 'T9': t9_swap_assigns, 'T10': t10_else_pass, 'T1': t1_rename, 'T2': t2_invert, 'T3': t3_name_return, 'T4': t4_split_and, 'T6': t6_drop_else, 'T7': t7_add_else,
          'T8': t8_extract_arg}
 
 
